@@ -249,6 +249,10 @@ def run(ctx, rep):
     rep.ok("R11.2", f"{len(ctx.repo.modules)} modules scanned for nondeterminism sources")
     r113(ctx, rep)
     r114(ctx, rep)
+    rep.rule("R11.5", "every np.empty buffer is completely defined (full store / complementary masks / slice partition / full loop) before it is read")
+    k = check_uninitialised(ctx, rep, "R11.5")
+    if k < 4:
+        raise AnalysisError(f"only {k} uninitialised-buffer allocations found (floor 4)")
 
 
 def _enclosing_func(ctx, mod, node):
@@ -346,3 +350,134 @@ def r114(ctx, rep, rule="R11.4"):
     else:
         rep.bad(rule, "cache key test")
         rep.finding(rule, bs, "cache hit test", bs.node.lineno, "the cache is not keyed by the interpolation points (np.array_equal of xpt with the cached copy)")
+
+
+# ---------------------------------------------------------------------------
+def _short(e):
+    if isinstance(e, ast.Call):
+        d = dotted(e.func)
+        return d.split(".")[-1] if d else None
+    return None
+
+
+def check_uninitialised(ctx, rep, rule):
+    """Every np.empty / np.empty_like buffer is completely defined before it
+    is read: one full store, stores under a mask and its complement, a slice
+    partition, or an element store in a loop over its whole length.  Reading
+    uninitialised memory makes results depend on stale heap contents (not
+    deterministic, not thread-independent)."""
+    n = 0
+    for f in ctx.repo.funcs.values():
+        cfg = None
+        for node in ast.walk(f.node):
+            if not (isinstance(node, ast.Assign) and _short(node.value) in ("empty", "empty_like") and len(node.targets) == 1):
+                continue
+            tgt = node.targets[0]
+            shape = node.value.args[0] if node.value.args else None
+            # zero-sized allocations hold no element
+            def zero_sized(sh):
+                if isinstance(sh, ast.Constant) and sh.value == 0:
+                    return True
+                if isinstance(sh, ast.Tuple) and sh.elts and isinstance(sh.elts[0], ast.Constant) and sh.elts[0].value == 0:
+                    return True
+                return False
+            if shape is not None and zero_sized(shape):
+                continue
+            name = norm(tgt)
+            n += 1
+            # statements following the allocation in the same block
+            par = getattr(node, "_parent", None)
+            body = None
+            for fld in ("body", "orelse", "finalbody"):
+                lst = getattr(par, fld, None)
+                if isinstance(lst, list) and any(x is node for x in lst):
+                    body = lst
+            if body is None:
+                continue
+            i0 = [i for i, x in enumerate(body) if x is node][0]
+            stores = []
+            covered = False
+            first_read = None
+            for st in body[i0 + 1:]:
+                # a store statement?
+                handled = False
+                if isinstance(st, ast.Assign):
+                    for t in st.targets:
+                        tl = t.elts if isinstance(t, (ast.Tuple, ast.List)) else [t]
+                        for el in tl:
+                            if isinstance(el, ast.Subscript) and norm(el.value) == name:
+                                stores.append(el.slice)
+                                handled = True
+                    # the right-hand side may read the buffer
+                    for sub in ast.walk(st.value):
+                        if norm(sub) == name and isinstance(sub, (ast.Name, ast.Attribute)):
+                            first_read = first_read or st
+                if isinstance(st, ast.For):
+                    # for i in range(N): buf[i] = ...
+                    it = st.iter
+                    lv = st.target.id if isinstance(st.target, ast.Name) else None
+                    full = False
+                    for sub in ast.walk(st):
+                        if isinstance(sub, ast.Assign):
+                            for t in sub.targets:
+                                tl = t.elts if isinstance(t, (ast.Tuple, ast.List)) else [t]
+                                for el in tl:
+                                    if isinstance(el, ast.Subscript) and norm(el.value) == name:
+                                        idx = el.slice.elts[0] if isinstance(el.slice, ast.Tuple) else el.slice
+                                        if isinstance(idx, ast.Name) and idx.id == lv and _short(it) == "range" and len(it.args) == 1 and shape is not None:
+                                            sh0 = shape.elts[0] if isinstance(shape, ast.Tuple) else shape
+                                            if norm(it.args[0]) == norm(sh0):
+                                                full = True
+                    if full:
+                        covered = True
+                        handled = True
+                if covered or _covers(stores):
+                    covered = True
+                    break
+                if not handled:
+                    for sub in ast.walk(st):
+                        if isinstance(sub, (ast.Name, ast.Attribute)) and norm(sub) == name and isinstance(getattr(sub, "ctx", None), ast.Load):
+                            par2 = getattr(sub, "_parent", None)
+                            if isinstance(par2, ast.Subscript) and isinstance(par2.ctx, ast.Store):
+                                continue
+                            first_read = first_read or st
+                if first_read is not None:
+                    break
+            desc = f"{f.local}:{node.lineno} `{norm(node)[:50]}`"
+            if covered:
+                rep.ok(rule, desc + f" completely defined by {len(stores) or 'a loop of'} store(s) before use")
+            else:
+                rep.bad(rule, desc)
+                rep.finding(rule, f, norm(node)[:100], node.lineno,
+                            f"the uninitialised buffer `{name}` is not completely defined before it is used (stores: {[norm(x) for x in stores] or 'none'}): "
+                            "the unassigned entries hold stale memory, so results can differ between runs and threads")
+    return n
+
+
+def _covers(slices):
+    texts = [norm(x).replace(" ", "") for x in slices]
+    if not texts:
+        return False
+    # first-axis part of multi-axis indices with trailing full slices / constants
+    first = []
+    for x in slices:
+        if isinstance(x, ast.Tuple):
+            first.append(norm(x.elts[0]).replace(" ", ""))
+        else:
+            first.append(norm(x).replace(" ", ""))
+    if any(t in (":", "...", "Ellipsis") for t in first) and not any(isinstance(x, ast.Tuple) and norm(x.elts[0]) != ":" for x in slices):
+        return True
+    # mask and its complement
+    for a in first:
+        if ("~" + a) in first or (a.startswith("~") and a[1:] in first):
+            return True
+    # slice partition  :k | k | k+1:   (or  :k | k:)
+    lows = [t[1:] for t in first if t.startswith(":") and len(t) > 1]
+    highs = [t[:-1] for t in first if t.endswith(":") and len(t) > 1]
+    singles = [t for t in first if ":" not in t and not t.startswith("~")]
+    for lo in lows:
+        if lo in highs:
+            return True
+        if lo in singles and (lo + "+1") in highs:
+            return True
+    return False
